@@ -112,6 +112,14 @@ def stepMp (op : String) (j : Json) : Option Json :=
     match j.getObjVal? "hex" with
     | .ok (.str h) => (unhex h).map (fun bs => match (decode bs).bind jsonOf with | some d => d | none => mpErr)
     | _ => none
+  | "pv_typed" =>
+    -- a whole proof-value text, all four layers: header, base64url, msgpack, and the visitor of the tagged sequence on the
+    -- classified elements: the kind accepted
+    match j.getObjVal? "s" with
+    | .ok (.str s) => some (match (Base64.envelopeDecode s.toList).bind readTyped with
+        | some k => Json.num (JsonNumber.fromNat k)
+        | none => mpErr)
+    | _ => none
   | "pv_read" =>
     -- a whole proof-value text: multibase header, base64url, msgpack, tagged sequence: the kind and the payload document
     match j.getObjVal? "s" with
